@@ -7,6 +7,8 @@ mod type_ops;
 mod type_owner;
 mod type_visit_trait;
 mod types;
+#[cfg(feature = "verif")]
+mod verif;
 
 use super::traits::LuaIndex;
 use crate::{DbIndex, FileId, InFiled, db_index::WorkspaceId};
